@@ -3,3 +3,4 @@ From Spdx Require Import Spec.Units Gen.Tables.
 Lemma chk_unit_tokens_shipped : chk_unit_tokens T0 = true. Proof. vm_compute. reflexivity. Qed.
 Lemma chk_case_safe_shipped : chk_case_safe T0 = true. Proof. vm_compute. reflexivity. Qed.
 Lemma chk_only_pairs_shipped : chk_only_pairs T0 = true. Proof. vm_compute. reflexivity. Qed.
+Lemma chk_deprec_no_orlater_shipped : chk_deprec_no_orlater T0 = true. Proof. vm_compute. reflexivity. Qed.
